@@ -1,4 +1,5 @@
 import Rustic.Lemmas.CommandTableConfig
+import Rustic.Model.CommandSteps
 import Rustic.Gen.RepositoryApi
 /-
 C15 — Append-only and dry-run modes never remove or overwrite stored data.
@@ -214,6 +215,8 @@ theorem handle_flag_is_table_flag (mem : Rustic.Config.ConfigFile) (st : Rustic.
 /-- The harness tokens: what the traffic check expects is a refusal exactly where the table refuses. -/
 def aoTokens : List String :=
   ["backup.new", "backup.same", "backup.dry.new", "backup.dry.same", "forget", "prune", "prune.instant", "prune.all",
+   "prune.early", "prune.instant.early", "prune.instant.all", "prune.fast", "prune.uncomp", "prune.cacheable", "prune.noresize",
+   "prune.unused0.repackunl", "prune.keepdel.keeppack", "prune.instant.early.all.unused0", "prune.instant.ignore",
    "prune_plan", "repair_index", "repair_index.dry", "repair_index.readall", "repair_index.readall.dry",
    "repair_snap.delete", "repair_snap.delete.dry", "repair_snap.keep", "repair_snap.keep.dry", "rewrite.forget",
    "rewrite.forget.dry", "rewrite.keep", "rewrite.keep.dry", "rewtrees.forget", "rewtrees.forget.dry", "rewtrees.keep",
@@ -351,7 +354,149 @@ theorem every_dry_flag_has_effective_twin :
                 dryTwinCases.any (fun p => isHotColdDamage p.1 && twinEffective c p.1 p.2)) = true := by
   decide
 
+/-! ### where the guards stand (`Model/CommandSteps.lean`: statement order of `prune_repository` / `repair_index`) -/
+section Steps
+open Rustic.CommandSteps
+
+/-- `prune_repository` on an append-only repository returns AppendOnly having issued NO storage operation — whatever
+the options (`instant_delete`, `early_delete_index`), however many pack files no index lists (`existing_packs`), whatever
+the plan: the guard is the first statement, in front of the unindexed-pack block. -/
+theorem prune_guard_precedes_unindexed_packs (r : PruneRun) (h : r.appendOnly = true) :
+    pruneRepository r = ([], some .appendOnly) := by
+  simp [pruneRepository, h]
+
+/-- … and the function refuses exactly when the table's `prune` row refuses, with the table's error; what it issues
+conforms to the row (for every option combination, every set of unindexed packs / index files, every remainder that
+stays within the row). -/
+theorem prune_steps_conform_to_table (hc : Bool) (files : List File) (r : PruneRun) (hr : r.restOk = true) :
+    conforms ⟨r.appendOnly, files, hc⟩ ⟨.prune, (pruneRepository r).1⟩ = true ∧
+    ((pruneRepository r).2 = some .appendOnly ↔ run hc r.appendOnly .prune = .refused .appendOnly) := by
+  cases hao : r.appendOnly
+  · constructor
+    · simp only [conforms, run, pruneRepository, hao, Bool.false_eq_true, if_false]
+      split
+      · cases r.instantDelete <;> simp [packRemovals, dataWrites, ConcreteOp.kind]
+      · simp only [PruneRun.restOk] at hr
+        cases r.instantDelete <;> cases r.earlyDeleteIndex <;>
+          simp_all [packRemovals, indexRemovals, dataWrites, ConcreteOp.kind, List.all_append]
+    · simp only [run, pruneRepository, hao, Bool.false_eq_true, if_false]
+      split <;> simp
+  · simp [conforms, run, pruneRepository, hao]
+
+/-- Hence every pack file of an append-only repository — listed by an index or not — is still there after `prune`
+with any options. -/
+theorem append_only_prune_keeps_every_pack (s : State) (r : PruneRun) (hs : s.appendOnly = true)
+    (hr : r.appendOnly = s.appendOnly) (id : Nat) (hf : (⟨.pack, id⟩ : File) ∈ s.files) :
+    (⟨.pack, id⟩ : File) ∈ (step s ⟨.prune, (pruneRepository r).1⟩).files := by
+  rw [prune_guard_precedes_unindexed_packs r (hr.trans hs)]
+  simpa [step] using hf
+
+/-- The position matters (seeded change C15-4, NOT the code): with the guard below the unindexed-pack block,
+`instant_delete` removes every unindexed pack of an append-only repository before AppendOnly is returned. -/
+theorem late_prune_guard_removes_unindexed_packs (r : PruneRun) (h : r.appendOnly = true) (hi : r.instantDelete = true)
+    (id : Nat) (hid : id ∈ r.unindexed) :
+    (pruneRepositoryGuardLate r).2 = some .appendOnly ∧ ConcreteOp.remove ⟨.pack, id⟩ ∈ (pruneRepositoryGuardLate r).1 := by
+  simp only [pruneRepositoryGuardLate, h, hi, if_true, packRemovals, List.mem_map, true_and]
+  exact ⟨id, hid, rfl⟩
+
+theorem headerLoop_dry (packs : List PackRead) (ix : IndexerSt) (acc : List Op) :
+    headerLoop true packs ix acc = (ix, acc) := by
+  induction packs generalizing ix acc with
+  | nil => rfl
+  | cons p ps ih =>
+    simp only [headerLoop]
+    cases p.blobs <;> simp [ih]
+
+/-- A dry-run `repair_index` issues no storage operation at all — for every list of index files (changed or not), for
+every list of packs whose header is read, however many blobs they hold (also far beyond the `MAX_COUNT` at which the
+indexer saves on its own) and whenever the indexer's age limit strikes: nothing is ever handed to the indexer. -/
+theorem repair_index_dry_run_issues_nothing (idx : List IdxFile) (packs : List PackRead) :
+    repairIndex false true idx packs = ([], none) := by
+  simp [repairIndex, headerLoop_dry, finalizeWrites]
+
+theorem headerLoop_ops (dry : Bool) (packs : List PackRead) (ix : IndexerSt) (acc : List Op)
+    (h : ∀ o ∈ acc, o = .write .index) : ∀ o ∈ (headerLoop dry packs ix acc).2, o = .write .index := by
+  induction packs generalizing ix acc with
+  | nil => simpa [headerLoop] using h
+  | cons p ps ih =>
+    simp only [headerLoop]
+    cases p.blobs with
+    | none => exact ih ix acc h
+    | some n =>
+      cases dry
+      · simp only [Bool.false_eq_true, if_false]
+        apply ih
+        split
+        · intro o ho
+          rcases List.mem_append.mp ho with ho | ho
+          · exact h o ho
+          · simpa using ho
+        · exact h
+      · exact ih ix acc h
+
+/-- `repair_index` refuses exactly where the table's row does and issues only what the row allows (index files
+written and removed; nothing in a dry run). -/
+theorem repair_index_steps_conform_to_table (hc ao dry : Bool) (idx : List IdxFile) (packs : List PackRead) :
+    match run hc ao (.repairIndex dry) with
+    | .refused e => repairIndex ao dry idx packs = ([], some e)
+    | .runs allowed => (repairIndex ao dry idx packs).2 = none ∧ ∀ o ∈ (repairIndex ao dry idx packs).1, o ∈ allowed := by
+  cases ao
+  · cases dry
+    · simp only [run, Bool.false_eq_true, if_false, repairIndex, true_and]
+      intro o ho
+      have hl := headerLoop_ops false packs {} [] (by simp)
+      simp only [List.mem_append, List.mem_flatMap] at ho
+      rcases ho with ((⟨f, _, ho⟩ | ho) | ho) | ⟨f, _, ho⟩
+      · split at ho <;> simp_all
+      · simp [hl o ho]
+      · split at ho <;> simp_all
+      · split at ho <;> simp_all
+    · simp [run, repair_index_dry_run_issues_nothing]
+  · simp [run, repairIndex]
+
+/-- The position matters (seeded change C15-5, NOT the code): with `!dry_run` guarding only `finalize`, a dry run that
+reads a pack with at least `MAX_COUNT` blobs writes an index file. -/
+theorem finalize_guard_alone_writes_in_dry_run (n : Nat) (h : n ≥ Rustic.Gen.C15_INDEXER_MAX_COUNT)
+    (idx : List IdxFile) (rest : List PackRead) :
+    Op.write .index ∈ (repairIndexFinalizeGuardOnly false true idx (⟨some n, false⟩ :: rest)).1 := by
+  have hl : ∀ (ps : List PackRead) (ix : IndexerSt) (acc : List Op), Op.write .index ∈ acc →
+      Op.write .index ∈ (headerLoopNoGuard ps ix acc).2 := by
+    intro ps
+    induction ps with
+    | nil => intro ix acc h; simpa [headerLoopNoGuard] using h
+    | cons p ps ih =>
+      intro ix acc hacc
+      simp only [headerLoopNoGuard]
+      cases p.blobs with
+      | none => exact ih ix acc hacc
+      | some m =>
+        apply ih
+        split
+        · exact List.mem_append_left _ hacc
+        · exact hacc
+  simp only [repairIndexFinalizeGuardOnly, Bool.false_eq_true, if_false, headerLoopNoGuard, addWith]
+  have hn : decide (({} : IndexerSt).count + n ≥ Rustic.Gen.C15_INDEXER_MAX_COUNT) = true := by
+    simp only [decide_eq_true_eq]; show 0 + n ≥ _; omega
+  simp only [hn, Bool.true_or, if_true]
+  apply List.mem_append_left
+  apply List.mem_append_left
+  apply List.mem_append_right
+  exact hl rest {} _ (by simp)
+
+end Steps
+
 /-! ### non-vacuity -/
+-- the real run of the `big` scenario of the traffic check: one changed index file, a data pack with more than MAX_COUNT
+-- blobs (the indexer saves on its own in the middle of the loop), a tree pack (saved by `finalize`)
+example : (Rustic.CommandSteps.repairIndex false false [⟨true, false⟩] [⟨some 50150, false⟩, ⟨some 2, false⟩]).1 =
+    [.write .index, .write .index, .write .index, .remove .index] := by decide
+example : Rustic.CommandSteps.repairIndex false true [⟨true, false⟩] [⟨some 50150, false⟩, ⟨some 2, false⟩] = ([], none) := by decide
+example : (Rustic.CommandSteps.repairIndexFinalizeGuardOnly false true [⟨true, false⟩] [⟨some 50150, false⟩, ⟨some 2, false⟩]).1 =
+    [.write .index] := by decide
+example : (Rustic.CommandSteps.pruneRepositoryGuardLate ⟨true, true, false, [7, 8], [1], []⟩) =
+    ([.remove ⟨.pack, 7⟩, .remove ⟨.pack, 8⟩], some .appendOnly) := by decide
+example : (Rustic.CommandSteps.pruneRepository ⟨false, true, true, [7], [1], [.write ⟨.index, 2⟩, .remove ⟨.index, 1⟩]⟩).1 =
+    [.remove ⟨.pack, 7⟩, .remove ⟨.index, 1⟩, .write ⟨.index, 2⟩, .remove ⟨.index, 1⟩] := by decide
 example : run false true .prune = .refused .appendOnly := rfl
 example : run false true (.applyConfig (.rejected (some false) .invalidInput)) = .refused (.validation .invalidInput) := rfl
 example : run false true (.applyConfig (.rejected (some true) .invalidInput)) = .refused .appendOnly := rfl
